@@ -35,3 +35,13 @@ Theorem C05_engine_exact_consumption : forall data cs bufsize t reads,
   snd (erun_ext bufsize cs t reads) = (bitpos (Inflate.inflate [] data) + 7) / 8.
 Proof. exact engine_exact_consumption. Qed.
 Print Assumptions C05_engine_exact_consumption.
+
+(* ---- gzip and zlib readers (RModel/GzEngine.v): at io.EOF the bytes consumed from the source plus
+   the bytes the container specification leaves over add up to the input: no over-read past the trailer. *)
+From Verif Require Import GzEngine GzEngineSpec GzEngineSpec2 GzEngineTop.
+Theorem C05_gz_reader_consumed : gz_consumed_statement.
+Proof. exact gz_consumed. Qed.
+Print Assumptions C05_gz_reader_consumed.
+Theorem C05_zl_reader_consumed : zl_consumed_statement.
+Proof. exact zl_consumed. Qed.
+Print Assumptions C05_zl_reader_consumed.
